@@ -33,6 +33,8 @@ from fractions import Fraction
 
 import core
 import pblslices
+import py2coq
+import py2coq_pbl
 
 THEOREMS = [
     "C09_wind_at_zm", "C09_direction", "C09_direction_orientation", "C09_direction_refuted_unstable",
@@ -58,6 +60,59 @@ ASSUMPTIONS = [
 
 _IMPL = None
 JOBS = 12
+
+
+# ---------------------------------------------------------------------------------------------
+# tie (B) at function level: whole bodies of vertical_profiles / psi / phi -> Gen/GenPblFun.v -> Bridge/PblFunBridge.v
+
+
+class _Recorder:
+    """stands in for ctx inside the worker thread: compiles through ctx, keeps the obligations for the main thread"""
+
+    def __init__(self, ctx):
+        self.ctx, self.build, self.obligations = ctx, ctx.build, []
+
+    def write(self, name, text):
+        return self.ctx.write(name, text)
+
+    def coqc(self, path, timeout=300, extra_q=()):
+        return self.ctx.coqc(path, timeout=timeout, extra_q=extra_q)
+
+    def obligation(self, name, ok, detail=""):
+        self.obligations.append((name, ok, detail))
+
+
+def function_bridge_start(ctx):
+    """translate now (fail closed), compile generated file + bridge in a worker thread while the certified
+    correspondence runs; function_bridge_finish registers the obligations"""
+    rec = _Recorder(ctx)
+    try:
+        text, stats = py2coq_pbl.translate(os.path.join(core.SRC, "bldfm", "pbl_model.py"))
+    except py2coq.TranslateError as e:
+        rec.obligation("gen:GenPblFun.v", False, "whole-function translator failed closed: %s" % e)
+        return rec, None, None
+    except Exception as e:  # fail closed
+        rec.obligation("gen:GenPblFun.v", False, "whole-function translator crashed: %r" % (e,))
+        return rec, None, None
+    ex = ThreadPoolExecutor(max_workers=1)
+    fut = ex.submit(core.run_bridge, rec, {"GenPblFun.v": text}, ["PblFunBridge.v"])
+    ex.shutdown(wait=False)
+    return rec, fut, stats
+
+
+def function_bridge_finish(ctx, handle):
+    rec, fut, stats = handle
+    ok = False
+    if fut is not None:
+        try:
+            ok = bool(fut.result())
+        except Exception as e:  # fail closed
+            rec.obligation("bridge:bridge_fun_vertical_profiles", False, "bridge compilation crashed: %r" % (e,))
+    for name, good, detail in rec.obligations:
+        ctx.obligation(name, good, detail)
+    if stats:
+        ctx.cov["function_level_tie"] = dict(stats, functions=["vertical_profiles", "psi", "phi"], bridged=ok)
+    return ok
 
 
 def impl():
@@ -397,6 +452,7 @@ def check(ctx):
     # (as for Properties/C19Num.v); Print Assumptions of every theorem is still compared with the allow-list on every run.
     core.check_properties_file(ctx, "Properties/C09.v", THEOREMS, core.AX_REALS, coqchk=False)
     pblslices.run(ctx)
+    fb = function_bridge_start(ctx)
     np, pm, km = impl()
     cases = gen_cases(ctx)
     res, lem = certify_cases(ctx, cases, "c09case")
@@ -432,6 +488,7 @@ def check(ctx):
     pbad = certify_points(ctx, items)
     for it, why in pbad[:12]:
         ctx.fail("correspondence", "C09:point-%s" % it[0], "%s: %s" % (why, it[2][:300]), hint={"point": it[3]})
+    function_bridge_finish(ctx, fb)
     hist = {}
     for c in cases:
         key = "%s/%s/%s" % (c["closure"], "ustar" if c.get("ustar") is not None else "z0",
